@@ -264,6 +264,10 @@ def conventional(rng, name, feat=None):
     svcs = [f.service(n, host=host, scopes="https://www.googleapis.com/auth/cloud-platform") for n in svc_names]
     if len(svcs) > 1:
         tags.add("multi-service")
+    if feat.get("idle_service"):
+        # a service that declares no RPC at all (it still gets clients, transports and a metadata entry per client kind)
+        f.service("Idle", host=host, scopes="https://www.googleapis.com/auth/cloud-platform")
+        tags.add("service-without-rpcs")
     nres = rng.randint(1, 3)
     for r in range(nres):
         R = ["Widget", "Gadget", "Doohickey"][r]
@@ -521,6 +525,23 @@ def conventional(rng, name, feat=None):
             else:
                 s.rpc(nm, P + ".OddRequest", P + ".OddReply")
         tags.add("odd-rpc-names")
+    if feat.get("iam_direct"):
+        # google.iam.v1 types used directly, without the IAM mixin: a Policy field on a resource (cloudasset has one) and IAM
+        # RPCs the API declares itself (pubsub, bigtable admin): the library then needs grpc-google-iam-v1 at run time
+        for fl in {id(f): f, id(tf): tf}.values():
+            for d in ("google/iam/v1/iam_policy.proto", "google/iam/v1/policy.proto"):
+                if d not in fl.pb.dependency:
+                    fl.pb.dependency.append(d)
+        api.dep_mods += ["google.iam.v1.iam_policy_pb2", "google.iam.v1.policy_pb2"]
+        res0 = [m_ for m_ in tf.pb.message_type if m_.name == "Widget"][0]
+        build.Msg(res0, P + ".Widget", tf).field("iam_policy", ".google.iam.v1.Policy")
+        if feat["iam_direct"] == "rpcs":
+            s = svcs[0]
+            s.rpc("GetIamPolicy", ".google.iam.v1.GetIamPolicyRequest", ".google.iam.v1.Policy",
+                  http={"post": f"/{uver}/{{resource=widgets/*}}:getIamPolicy"}, body="*", sigs=["resource"])
+            s.rpc("SetIamPolicy", ".google.iam.v1.SetIamPolicyRequest", ".google.iam.v1.Policy",
+                  http={"post": f"/{uver}/{{resource=widgets/*}}:setIamPolicy"}, body="*")
+        tags.add("iam-types-used-directly:" + str(feat["iam_direct"]))
     if feat.get("foreign"):
         # requests/responses from dependency packages (pb2 classes at run time)
         f.pb.dependency.extend(["google/iam/v1/iam_policy.proto", "google/iam/v1/policy.proto"])
@@ -599,7 +620,7 @@ def add_subpackage(api, rng, with_service):
     api.tags.add("subpackage")
 
 
-def wellformed(rng, name, zero_ns=False):
+def wellformed(rng, name, zero_ns=False, extra_feat=None):
     """Conventional core plus the extra shapes of DESIGN §4.  zero_ns: allow a
     package without namespace segment (known finding C01-zero-namespace)."""
     feat = {
@@ -611,6 +632,7 @@ def wellformed(rng, name, zero_ns=False):
         "streams": rng.random() < 0.5,
         "foreign": rng.random() < 0.5,
     }
+    feat.update(extra_feat or {})
     api = conventional(rng, name, feat)
     api.info["feat"] = {k: v for k, v in feat.items()}
     return api
@@ -747,6 +769,15 @@ def types_zoo(rng, name, nmsgs=6):
     lm.field("modes", lower, repeated=True)
     lm.map("by_key", "string", lower)
     tags.add("lower-case-enum-values")
+    # aliased enum values (allow_alias): two names of one number are two declared values; top level and nested
+    alias = f.enum("JobState", "JOB_STATE_UNSPECIFIED", "STARTED", "RUNNING", "DONE", "FINISHED", numbers=[0, 1, 1, 2, 2], allow_alias=True)
+    am = f.message("AliasHolder")
+    nested_alias = am.enum("Phase", "PHASE_UNSPECIFIED", "INIT", "BOOT", numbers=[0, 1, 1], allow_alias=True)
+    am.field("state", alias)
+    am.field("states", alias, repeated=True)
+    am.field("phase", nested_alias)
+    am.map("by_key", "string", alias)
+    tags.add("aliased-enum-values")
     # real oneofs whose names start with an underscore (the idiom that preceded proto3 `optional`), before and between ordinary
     # oneofs and next to genuinely optional fields (whose synthetic oneofs have the same look)
     um = f.message("UnderscoreOneofs")
@@ -1285,8 +1316,13 @@ def routing_api(rng, name):
     rq.field("filter", "string")
     rq.field("shard", "int64")
     rq.field("note", "string")
+    rq.field("page_size", "int32")
+    rq.field("page_token", "string")
     rp = f.message("Reply")
     rp.field("ok", "bool")
+    prp = f.message("PagedReply")
+    prp.field("items", "string", repeated=True)
+    prp.field("next_page_token", "string")
     s = f.service("Router", host=f"{name}.googleapis.com")
     forms = list(ROUTING_FORMS)
     rng.shuffle(forms)
@@ -1313,6 +1349,14 @@ def routing_api(rng, name):
     s.rpc("Disabled", P + ".Req", P + ".Reply", http={"get": "/v1/{name=things/*}/parts/{table_name}"}, routing=[])
     api.info.setdefault("explicit", {})["Disabled"] = "empty_annotation"
     tags.add("routing:empty_annotation")
+    # paged methods: the header is computed once by the client method and must accompany every further page the pager fetches
+    s.rpc("ListImplicit", P + ".Req", P + ".PagedReply", http={"get": "/v1/{parent=shelves/*}/items"})
+    api.info.setdefault("implicit", {})["ListImplicit"] = "paged_implicit"
+    s.rpc("ListExplicit", P + ".Req", P + ".PagedReply", http={"get": "/v1/{anchor=anchors/*}/items"},
+          routing=[("table_name", "{shelf=shelves/*}/**"), ("app_profile_id", "{profile=*}")])
+    api.info.setdefault("explicit", {})["ListExplicit"] = "paged_explicit"
+    api.info["paged"] = ["ListImplicit", "ListExplicit"]
+    tags.update(["implicit:paged_implicit", "routing:paged_explicit"])
     api.options = ["transport=grpc+rest", "autogen-snippets=false"]
     api.info.update(pkg=pkg, version=ver, ns=["vp"], name=name, host=f"{name}.googleapis.com")
     return api
@@ -1433,15 +1477,17 @@ def paging_api(rng, name):
     return api
 
 
-def lro_api(rng, name, broken=None, rest=False):
+def lro_api(rng, name, broken=None, rest=False, subpkg=False):
     """operation_info type-resolution matrix (C08).  broken in {None, 'no_response', 'no_metadata', 'both_empty'}
-    produces a request that must be rejected."""
+    produces a request that must be rejected.  subpkg: the service and its files live in the proto sub-package <root>.admin next
+    to a sibling sub-package <root>.common — relative type names are relative to the METHOD's package, not to the API's root."""
     api = Api(name)
     tags = api.tags
     ver = rng.choice(["v2", "v1beta1", "v3"]) if rest == "norules" else "v1"
-    pkg = f"vp.{name}.{ver}"
+    base = f"vp.{name}.{ver}"
+    pkg = base + ".admin" if subpkg else base
     P = "." + pkg
-    dirp = f"vp/{name}/{ver}"
+    dirp = f"vp/{name}/{ver}" + ("/admin" if subpkg else "")
     fname_other = rng.choice(["progress", "operation", "operation_async", "results", "pagers", "common"])
     f_imp = File(f"{dirp}/imported_types.proto", pkg, deps=list(STD_DEPS))
     f_not = File(f"{dirp}/{fname_other}.proto", pkg, deps=list(STD_DEPS))
@@ -1469,17 +1515,30 @@ def lro_api(rng, name, broken=None, rest=False):
     q.field("payload", "string")
     s = f.service("Jobs", host=f"{name}.googleapis.com")
     where = {"same": ("SameResult", "SameMeta"), "imported": ("ImportedResult", "ImportedMeta"), "far": ("FarResult", "FarMeta")}
+    if subpkg:
+        # the sibling sub-package has namesakes of the service package's types and types of its own (named fully qualified)
+        f_sib = File(f"vp/{name}/{ver}/common/shared.proto", base + ".common", deps=list(STD_DEPS))
+        api.add(f_sib)
+        for nm in ("SameMeta", "FarResult", "SharedResult", "SharedMeta"):
+            mk(f_sib, nm)
+        where["sibling"] = ("SharedResult", "SharedMeta")
+        tags.add("lro-service-in-sub-package")
     n = 0
-    for wr in ["same", "imported", "far", "empty"]:
-        for wm in ["same", "imported", "far"]:
+    for wr in ["same", "imported", "far", "empty"] + (["sibling"] if subpkg else []):
+        for wm in ["same", "imported", "far"] + (["sibling"] if subpkg else []):
             if rng.random() < 0.45:
                 continue
             qual_r, qual_m = rng.random() < 0.5, rng.random() < 0.5
             if wr == "empty":
                 rt_ = "google.protobuf.Empty"
+            elif wr == "sibling":
+                rt_, qual_r = base + ".common." + where[wr][0], True
             else:
                 rt_ = (pkg + "." if qual_r else "") + where[wr][0]
-            mt_ = (pkg + "." if qual_m else "") + where[wm][1]
+            if wm == "sibling":
+                mt_, qual_m = base + ".common." + where[wm][1], True
+            else:
+                mt_ = (pkg + "." if qual_m else "") + where[wm][1]
             s.rpc(f"Start{n}", P + ".StartRequest", ".google.longrunning.Operation",
                   http={"post": f"/v1/{{name=jobs/*}}:start{n}"}, body="*", lro=(rt_, mt_))
             api.info.setdefault("lro", {})[f"Start{n}"] = {"response": wr, "metadata": wm, "qualified": [qual_r, qual_m]}
@@ -1514,7 +1573,7 @@ def lro_api(rng, name, broken=None, rest=False):
         s.rpc("Broken", P + ".StartRequest", ".google.longrunning.Operation", http={"post": "/v1/{name=jobs/*}:broken"}, body="*", lro=lro)
         tags.add("broken:" + broken)
     api.options = ["transport=grpc", "autogen-snippets=false"]
-    api.info.update(pkg=pkg, version=ver, ns=["vp"], name=name, host=f"{name}.googleapis.com")
+    api.info.update(pkg=base, version=ver, ns=["vp"], name=name, host=f"{name}.googleapis.com", sub="admin" if subpkg else "")
     if rest:
         # over REST the operation future polls google.longrunning.Operations where the service YAML's http rules say it is
         # served — whether or not the YAML also lists Operations as a mixin under `apis`
@@ -1560,11 +1619,20 @@ def retry_api(rng, name):
     sb = f.service("Beta", host=f"{name}.googleapis.com")
     names_a = ["Get", "Put", "Scan", "Touch", "Drop", "Peek", "Sync", "Mark"]
     names_b = ["Get", "Put", "Other"]
-    for n in names_a:
+    # HTTP rules of every shape (with a body, without one, per verb): over REST the deadline is the timeout handed to the session
+    shapes = [("get", None), ("post", "*"), ("delete", None), ("post", None), ("patch", "*"), ("put", "*"), ("get", None), ("post", "*")]
+    rng.shuffle(shapes)
+    api.info["http_shape"] = {}
+    for i, n in enumerate(names_a):
         # some methods return google.protobuf.Empty (the clients have a separate call site for those)
-        sa.rpc(n, P + ".Req", ".google.protobuf.Empty" if n in ("Drop", "Touch", "Mark") else P + ".Reply")
-    for n in names_b:
-        sb.rpc(n, P + ".Req", P + ".Reply")
+        verb, body = shapes[i % len(shapes)]
+        sa.rpc(n, P + ".Req", ".google.protobuf.Empty" if n in ("Drop", "Touch", "Mark") else P + ".Reply",
+               http={verb: f"/v1/{{name=alpha/*}}:a{n.lower()}"}, body=body)
+        api.info["http_shape"][f"Alpha.{n}"] = f"{verb}{'+body' if body else ''}"
+    for i, n in enumerate(names_b):
+        verb, body = shapes[(i + 3) % len(shapes)]
+        sb.rpc(n, P + ".Req", P + ".Reply", http={verb: f"/v1/{{name=beta/*}}:b{n.lower()}"}, body=body)
+        api.info["http_shape"][f"Beta.{n}"] = f"{verb}{'+body' if body else ''}"
     # a paginated method named in an entry with a retry policy: the default and any explicit retry apply to every page fetch
     lq = f.message("ListReq")
     lq.field("parent", "string")
@@ -1573,7 +1641,8 @@ def retry_api(rng, name):
     lr = f.message("ListReply")
     lr.field("items", "string", repeated=True)
     lr.field("next_page_token", "string")
-    sa.rpc("List", P + ".ListReq", P + ".ListReply")
+    sa.rpc("List", P + ".ListReq", P + ".ListReply", http={"get": "/v1/{parent=shelves/*}/items"})
+    api.info["http_shape"]["Alpha.List"] = "get"
     timeouts = rng.sample([5, 12, 20, 33, 47, 60, 75, 90, 120], 6)
     # incl. durations that are not a whole number of milliseconds
     durs = ["0.1s", "0.5s", "1s", "1.25s", "0.250000000s", "2s", "0.05s", "0.0005s", "0.0125s", "1.0625s", "0.000250s"]
@@ -1615,7 +1684,7 @@ def retry_api(rng, name):
     api.info["retry_cfg"] = cfg
     tags.update(["entry:multi-name", "entry:timeout-only", "entry:retry-only", "entry:ns-duration", "entry:duplicate", "entry:unknown-method",
                  "same-method-two-services"])
-    api.options = ["transport=grpc", "autogen-snippets=false"]
+    api.options = ["transport=grpc+rest", "autogen-snippets=false"]
     api.info.update(pkg=pkg, version=ver, ns=["vp"], name=name, host=f"{name}.googleapis.com")
     return api
 
@@ -1845,7 +1914,7 @@ AUTOPOP_VIOLATIONS = ["unknown_method", "server_streaming", "client_streaming", 
                       "leading_dot_selector", "leading_dot_duplicate"]
 
 
-def autopop_api(rng, name, violation=None):
+def autopop_api(rng, name, violation=None, plant=True):
     """AIP-4235 shapes (C18)."""
     from google.api import field_info_pb2
     api = Api(name)
@@ -1918,10 +1987,12 @@ def autopop_api(rng, name, violation=None):
         "unknown_field": {"selector": f"{S}.Untouched", "auto_populated_fields": ["no_such_field"]},
         "message_field": {"selector": f"{S}.Untouched", "auto_populated_fields": ["sub_id"]},
     }
-    if violation == "duplicate_of_unpopulated" or rng.random() < 0.4:
-        # an entry that configures something else for a method: valid, and populates nothing
+    roll = rng.random()
+    if violation == "duplicate_of_unpopulated" or (roll < 0.4 and (not violation or not bad[violation]["selector"].endswith(".Untouched"))):
+        # an entry that configures something else for a method: valid, and populates nothing (never next to a planted entry for the
+        # same method: that entry would then be rejected as a duplicate, not for what it plants)
         settings.insert(rng.randint(0, len(settings)), {"selector": f"{S}.Untouched", "long_running": {"initial_poll_delay": "3s"}})
-    if violation:
+    if violation and plant:
         settings.insert(rng.randint(0, len(settings)), bad[violation])
     api.info["method_settings"] = settings
     api.aux["service-yaml"] = ("svc.yaml", service_yaml(api, publishing={"method_settings": settings}))
@@ -1945,7 +2016,7 @@ MIXIN_METHODS = {
 }
 
 
-def mixin_api(rng, name, mixins, rules_mode, own_iam=None, add_iam=False, transport="grpc+rest", prefix="/v1", annex="random"):
+def mixin_api(rng, name, mixins, rules_mode, own_iam=None, add_iam=False, transport="grpc+rest", prefix="/v1", annex="random", unlisted=()):
     """Service YAML mixin configurations (C17).  rules_mode in {all, some, none}; own_iam: None or a list of IAM RPC
     names the API defines itself."""
     api = Api(name)
@@ -2031,8 +2102,18 @@ def mixin_api(rng, name, mixins, rules_mode, own_iam=None, add_iam=False, transp
                 old["body"] = "*"
             shadowed.append(old)
             api.tags.add("mixin-selector-listed-twice")
+    # http rules for a mixin API that is NOT named under `apis` (a YAML shared between surfaces, or left over): nothing of it is exposed,
+    # whatever else the API contains (a long-running method, IAM types, ...)
+    stray = []
+    for m in unlisted:
+        if m in mixins:
+            continue
+        for sel, r0 in MIXIN_RULES[m][1]:
+            stray.append({"selector": sel, **{k: (v.replace("/v1/", prefix + "/") if isinstance(v, str) and v.startswith("/v1/") else v) for k, v in r0.items()}})
+        api.tags.add("rules-for-unlisted-mixin:" + m)
+    api.info["unlisted_with_rules"] = [m for m in unlisted if m not in mixins]
     text = service_yaml(api, mixins=mixins, rules={m: [] for m in mixins},
-                        extra_rules=shadowed + [{"selector": sel, **r} for sel, r in doc_rules.items()])
+                        extra_rules=shadowed + stray + [{"selector": sel, **r} for sel, r in doc_rules.items()])
     api.aux["service-yaml"] = ("svc.yaml", text)
     api.options = [f"transport={transport}", "autogen-snippets=false"] + (["add-iam-methods"] if add_iam else [])
     api.info.update(pkg=pkg, version=ver, ns=["vp"], name=name, host=f"{name}.googleapis.com")
@@ -2066,6 +2147,52 @@ def prefix_packages_api(rng, name, layout=None):
     api.options = ["transport=grpc+rest", "autogen-snippets=false", "metadata"]
     api.info.update(pkg=base, version=ver, ns=["vp"], name=name, host=f"{name}.googleapis.com")
     api.tags.add("packages-that-are-character-prefixes")
+    return api
+
+
+CORE_NAMESAKES = ["operation", "operation_async", "pagers", "exceptions", "gapic_v1", "client_options", "transports", "client",
+                   "async_client", "operations_v1", "retries"]
+
+
+def core_namesake_api(rng, name, fname, flat_operation=False):
+    """A target proto file whose module base name is that of a module the emitted clients import from google.api_core or from the
+    service package itself (operation.proto as in aiplatform); its types are used as request field, response, LRO result and paged
+    item (C12: two imported modules share a base name)."""
+    api = Api(name)
+    ver = "v1"
+    pkg = f"vp.{name}.{ver}"
+    P = "." + pkg
+    dirp = f"vp/{name}/{ver}"
+    fx = File(f"{dirp}/{fname}.proto", pkg, deps=[])
+    th = fx.message("Thing")
+    th.field("name", "string")
+    th.field("count", "int32")
+    kind = fx.enum("ThingKind", "THING_KIND_UNSPECIFIED", "SMALL", "LARGE")
+    th.field("kind", kind)
+    mt = fx.message("RunMetadata")
+    mt.field("percent", "int32")
+    f = File(f"{dirp}/{name}.proto", pkg, deps=list(STD_DEPS) + [fx.pb.name])
+    api.add(fx)
+    api.add(f)
+    q = f.message("StartRequest")
+    q.field("name", "string")
+    q.field("thing", P + ".Thing")
+    q.field("operation", "string")
+    lq = f.message("ListThingsRequest")
+    lq.field("parent", "string")
+    lq.field("page_size", "int32")
+    lq.field("page_token", "string")
+    lr = f.message("ListThingsResponse")
+    lr.field("things", P + ".Thing", repeated=True)
+    lr.field("next_page_token", "string")
+    s = f.service("Things", host=f"{name}.googleapis.com")
+    s.rpc("GetThing", P + ".StartRequest", P + ".Thing", http={"get": "/v1/{name=things/*}"}, sigs=["name"])
+    s.rpc("Run", P + ".StartRequest", ".google.longrunning.Operation", http={"post": "/v1/{name=things/*}:run"}, body="*",
+          sigs=["name,operation" if flat_operation else "name,thing"], lro=("Thing", "RunMetadata"))
+    s.rpc("ListThings", P + ".ListThingsRequest", P + ".ListThingsResponse", http={"get": "/v1/{parent=shelves/*}/things"}, sigs=["parent"])
+    api.options = ["transport=grpc", "autogen-snippets=false"]
+    api.info.update(pkg=pkg, version=ver, ns=["vp"], name=name, host=f"{name}.googleapis.com", namesake=fname, flat_operation=flat_operation)
+    api.tags.add("core-namesake:" + fname)
     return api
 
 
@@ -2119,8 +2246,10 @@ def twin_module_api(rng, name):
     return api
 
 
-def extop_api(rng, name):
-    """Compute-style extended operations (google.cloud.extended_operations): initiating RPCs name a polling service (C16)."""
+def extop_api(rng, name, scopes=0, transport="grpc"):
+    """Compute-style extended operations (google.cloud.extended_operations): initiating RPCs name a polling service (C16).
+    scopes > 0 adds that many further polling services (Zone, Global, ...), each used by one more RPC of Addresses (C10: a
+    service polled through several operation services)."""
     from google.cloud import extended_operations_pb2 as xo
     api = Api(name)
     ver = "v1"
@@ -2175,9 +2304,32 @@ def extop_api(rng, name):
     ad.pb.method[-1].options.Extensions[xo.operation_service] = "RegionOperations"
     ad.rpc("Get", P + ".GetAddressRequest", P + ".Address", http={"get": base + "/{address}"}, sigs=["project,region,address"])
     ad.rpc("List", P + ".ListAddressesRequest", P + ".AddressList", http={"get": base}, sigs=["project,region"])
-    api.options = ["transport=grpc", "autogen-snippets=false"]
+    extended = ["Addresses.Insert", "Addresses.Delete"]
+    extra = [("Zone", ["project", "zone"]), ("Global", ["project"]), ("GlobalOrganization", ["parent_id"]), ("Interconnect", ["project", "link"]),
+             ("Fleet", ["project", "fleet"])]
+    rng.shuffle(extra)
+    for scope, keys in extra[:scopes]:
+        gq2 = f.message(f"Get{scope}OperationRequest")
+        fld = gq2.field("operation", "string", required=True)
+        fld.options.Extensions[xo.operation_response_field] = "name"
+        for k in keys:
+            gq2.field(k, "string", required=True)
+        ops2 = f.service(f"{scope}Operations", host=host)
+        ops2.rpc("Get", P + f".Get{scope}OperationRequest", P + ".Operation",
+                 http={"get": "/compute/v1/" + "/".join(f"{k}s/{{{k}}}" for k in keys) + "/operations/{operation}"}, sigs=[",".join(keys + ["operation"])])
+        ops2.pb.method[-1].options.Extensions[xo.operation_polling_method] = True
+        q = f.message(f"Move{scope}AddressRequest")
+        for k in keys:
+            q.field(k, "string")
+        q.field("address", "string")
+        ad.rpc(f"Move{scope}", P + f".Move{scope}AddressRequest", P + ".Operation",
+               http={"post": "/compute/v1/" + "/".join(f"{k}s/{{{k}}}" for k in keys) + "/addresses/{address}/move"}, sigs=[",".join(keys + ["address"])])
+        ad.pb.method[-1].options.Extensions[xo.operation_service] = f"{scope}Operations"
+        extended.append(f"Addresses.Move{scope}")
+        api.tags.add("several-operation-services-for-one-service")
+    api.options = [f"transport={transport}", "autogen-snippets=false"]
     api.info.update(pkg=pkg, version=ver, ns=["vp"], name=name, host=host,
-                    extended=["Addresses.Insert", "Addresses.Delete"], polling=("RegionOperations", "Get"))
+                    extended=extended, polling=("RegionOperations", "Get"))
     api.tags.add("extended-operations")
     return api
 
@@ -2337,6 +2489,39 @@ def selective_api(rng, name):
     return api
 
 
+def shared_types_api(rng, name):
+    """Selective generation where RPCs share ALL their types (C16): dropping an RPC prunes no message or enum of its file; a second
+    file holds a service alone, using the first file's messages."""
+    api = Api(name)
+    ver = "v1"
+    pkg = f"vp.{name}.{ver}"
+    P = "." + pkg
+    dirp = f"vp/{name}/{ver}"
+    f = File(f"{dirp}/{name}.proto", pkg, deps=list(STD_DEPS))
+    f2 = File(f"{dirp}/painter.proto", pkg, deps=list(STD_DEPS) + [f.pb.name])
+    api.add(f)
+    api.add(f2)
+    shape = f.message("Shape")
+    shape.field("name", "string")
+    shape.field("sides", "int32")
+    shape.field("tone", shape.enum("Tone", "TONE_UNSPECIFIED", "DARK", "LIGHT"))
+    q = f.message("GetShapeRequest")
+    q.field("name", "string")
+    q.field("view", f.enum("View", "VIEW_UNSPECIFIED", "BASIC", "FULL"))
+    s = f.service("Shapes", host=f"{name}.googleapis.com")
+    s.rpc("GetShape", P + ".GetShapeRequest", P + ".Shape", http={"get": "/v1/{name=shapes/*}"}, sigs=["name"])
+    s.rpc("FetchShape", P + ".GetShapeRequest", P + ".Shape", http={"get": "/v1/{name=shapes/*}:fetch"})
+    s.rpc("ReviseShape", P + ".Shape", P + ".Shape", http={"post": "/v1/{name=shapes/*}:revise"}, body="*")
+    s.rpc("DropShape", P + ".GetShapeRequest", ".google.protobuf.Empty", http={"delete": "/v1/{name=shapes/*}"})
+    s2 = f2.service("Painter", host=f"{name}.googleapis.com")
+    s2.rpc("Paint", P + ".Shape", P + ".Shape", http={"post": "/v1/{name=shapes/*}:paint"}, body="*")
+    s2.rpc("Repaint", P + ".GetShapeRequest", P + ".Shape", http={"post": "/v1/{name=shapes/*}:repaint"}, body="*")
+    api.options = ["transport=grpc", "autogen-snippets=false"]
+    api.info.update(pkg=pkg, version=ver, ns=["vp"], name=name, host=f"{name}.googleapis.com")
+    api.tags.add("rpcs-sharing-all-their-types")
+    return api
+
+
 def sample_api(rng, name, transport="grpc"):
     """Calling forms x required-field kinds for sample generation (C14)."""
     api = conventional(rng, name, {"version": rng.choice(["v1", "v1beta1"]), "ns": ["vp"], "exotic": False, "streams": True,
@@ -2370,6 +2555,12 @@ def sample_api(rng, name, transport="grpc"):
             q.field("envelope", P + ".Envelope", required=True)
         if rng.random() < 0.5:
             q.field("names", "string", repeated=True, required=True)
+        if rng.random() < 0.6:
+            # REQUIRED repeated fields of the other scalar kinds (their mock values are Python lists in the sample source)
+            for t, nm in rng.sample([("bool", "toggles"), ("int32", "counts"), ("double", "ratios"), ("bytes", "blobs"), (color, "hues"),
+                                     ("uint64", "bigs")], rng.randint(1, 3)):
+                q.field(nm, t, repeated=True, required=True)
+                tags.add("sample-required-repeated:" + nm)
         if rng.random() < 0.6:
             q.field("as_text", "string", oneof="payload")
             q.field("as_spec", P + ".Spec", oneof="payload")
